@@ -371,6 +371,26 @@ def axes_all_but(ev, cmpr, ax, nd):
   return None
 
 
+def per_param_init(ev, init_fi, P, params_name='params'):
+  """Evaluate an optax-style init function (`init_fn(params)`) as a whole and return the per-parameter value that its
+  tree map builds, with the parameter leaf replaced by `P` - independent of how the per-parameter helper is named or
+  where it is nested.  Raises AnalysisError when the init does not map over `params`."""
+  from .model import AnalysisError
+  ps = sym('param', init_fi.short, params_name)
+  saved = dict(ev.leaf_override)
+  ev.leaf_override[ps] = P          # the generic leaf of `params` is the rule's parameter symbol (oracles recognise it)
+  try:
+    r = ev.run(init_fi)
+  finally:
+    ev.leaf_override = saved
+  tms = [x for x in walk(r) if x.op == 'tmap' and any(a_ is ps for a_ in x.args[1])]
+  if not tms:
+    raise AnalysisError(f'{init_fi.short}: no tree map over `{params_name}` found in the initial state')
+  # the outermost such map is the per-parameter state
+  tms.sort(key=lambda x: -sum(1 for _ in walk(x)))
+  return tms[0].args[0]
+
+
 def check_efficient_cond(ctx, rule):
   """efficient_cond's body implements cond(predicate, compute_fn(), init_state).
 
